@@ -284,7 +284,11 @@ func (fv *FuncVC) fieldHeapName(st types.Type, field string) string {
 // ---------------------------------------------------------------------------
 // raw memory helpers (little-endian loads/stores over the byte heap M)
 
-const rawPrelude = `
+// rawDefs: byte-level (little-endian) definitions of the word accessors. They are used
+// only to PROVE the word-level axioms below (memLemmas); the verification conditions
+// themselves use uninterpreted accessors plus those axioms, which keeps E-matching
+// cheap and avoids div/mod reasoning in every query.
+const rawDefs = `
 (define-fun ld8 ((m (Array Int Int)) (a Int)) Int (select m a))
 (define-fun ld16 ((m (Array Int Int)) (a Int)) Int (+ (select m a) (* 256 (select m (+ a 1)))))
 (define-fun ld32 ((m (Array Int Int)) (a Int)) Int (+ (select m a) (* 256 (select m (+ a 1))) (* 65536 (select m (+ a 2))) (* 16777216 (select m (+ a 3)))))
@@ -294,16 +298,64 @@ const rawPrelude = `
 (define-fun st16 ((m (Array Int Int)) (a Int) (v Int)) (Array Int Int) (store (store m a (mod v 256)) (+ a 1) (byteN v 256)))
 (define-fun st32 ((m (Array Int Int)) (a Int) (v Int)) (Array Int Int) (store (store (store (store m a (mod v 256)) (+ a 1) (byteN v 256)) (+ a 2) (byteN v 65536)) (+ a 3) (byteN v 16777216)))
 (define-fun st64 ((m (Array Int Int)) (a Int) (v Int)) (Array Int Int) (st32 (st32 m a (mod v 4294967296)) (+ a 4) (div (mod v 18446744073709551616) 4294967296)))
+(define-fun isbyte ((v Int)) Bool (and (<= 0 v) (< v 256)))
+(define-fun isbytes ((m (Array Int Int))) Bool (forall ((a!b Int)) (isbyte (select m a!b))))
+`
+
+var memWidths = []int{8, 16, 32, 64}
+
+// memAxioms: the word-level theory of raw memory used in every VC.
+func memAxioms() []string {
+	var out []string
+	pow := map[int]string{8: "256", 16: "65536", 32: "4294967296", 64: "18446744073709551616"}
+	for _, n := range memWidths {
+		// read-over-write, same address and width
+		out = append(out, fmt.Sprintf("(forall ((m (Array Int Int)) (a Int) (v Int)) (! (=> (and (<= 0 v) (< v %s)) (= (ld%d (st%d m a v) a) v)) :pattern ((st%d m a v))))", pow[n], n, n, n))
+		// stores keep byte heaps byte heaps
+		out = append(out, fmt.Sprintf("(forall ((m (Array Int Int)) (a Int) (v Int)) (! (=> (isbytes m) (isbytes (st%d m a v))) :pattern ((st%d m a v))))", n, n))
+		// loads from byte heaps are in range
+		if n > 8 {
+			out = append(out, fmt.Sprintf("(forall ((m (Array Int Int)) (a Int)) (! (=> (isbytes m) (and (<= 0 (ld%d m a)) (< (ld%d m a) %s))) :pattern ((ld%d m a))))", n, n, pow[n], n))
+		}
+		for _, k := range memWidths {
+			// read-over-write, disjoint ranges (k-bit load after n-bit store)
+			ld := fmt.Sprintf("(ld%d (st%d m a v) b)", k, n)
+			ld0 := fmt.Sprintf("(ld%d m b)", k)
+			if k == 8 {
+				ld = fmt.Sprintf("(select (st%d m a v) b)", n)
+				ld0 = "(select m b)"
+			}
+			out = append(out, fmt.Sprintf("(forall ((m (Array Int Int)) (a Int) (v Int) (b Int)) (! (=> (or (<= (+ b %d) a) (<= (+ a %d) b)) (= %s %s)) :pattern (%s)))", k/8, n/8, ld, ld0, ld))
+		}
+	}
+	// word loads depend only on the bytes they cover (extensionality over the window)
+	for _, n := range memWidths[1:] {
+		out = append(out, fmt.Sprintf("(forall ((m (Array Int Int)) (g (Array Int Int)) (a Int)) (! (=> (forall ((k!w Int)) (=> (and (<= 0 k!w) (< k!w %d)) (= (select m (+ a k!w)) (select g (+ a k!w))))) (= (ld%d m a) (ld%d g a))) :pattern ((ld%d m a) (ld%d g a))))", n/8, n, n, n, n))
+	}
+	out = append(out, "(forall ((m (Array Int Int)) (a Int)) (! (=> (isbytes m) (isbyte (select m a))) :pattern ((isbytes m) (select m a))))")
+	return out
+}
+
+const rawPrelude = `
+(define-fun ld8 ((m (Array Int Int)) (a Int)) Int (select m a))
+(declare-fun ld16 ((Array Int Int) Int) Int)
+(declare-fun ld32 ((Array Int Int) Int) Int)
+(declare-fun ld64 ((Array Int Int) Int) Int)
+(declare-fun st8 ((Array Int Int) Int Int) (Array Int Int))
+(declare-fun st16 ((Array Int Int) Int Int) (Array Int Int))
+(declare-fun st32 ((Array Int Int) Int Int) (Array Int Int))
+(declare-fun st64 ((Array Int Int) Int Int) (Array Int Int))
+(declare-fun isbytes ((Array Int Int)) Bool)
+(define-fun isbyte ((v Int)) Bool (and (<= 0 v) (< v 256)))
 (define-fun sgn8 ((v Int)) Int (ite (>= v 128) (- v 256) v))
 (define-fun sgn16 ((v Int)) Int (ite (>= v 32768) (- v 65536) v))
 (define-fun sgn32 ((v Int)) Int (ite (>= v 2147483648) (- v 4294967296) v))
 (define-fun sgn64 ((v Int)) Int (ite (>= v 9223372036854775808) (- v 18446744073709551616) v))
-(define-fun isbyte ((v Int)) Bool (and (<= 0 v) (< v 256)))
 `
 
 // byteHeapFact: every cell of a byte heap is a byte.
 func byteHeapFact(m Term) string {
-	return fmt.Sprintf("(forall ((a!b Int)) (! (isbyte (select %s a!b)) :pattern ((select %s a!b))))", m.S, m.S)
+	return fmt.Sprintf("(isbytes %s)", m.S)
 }
 
 // rawLoad reads a value of Go type t at address a from byte heap m.
@@ -352,16 +404,19 @@ func (fv *FuncVC) rawStore(m Term, a Term, t types.Type, v Term) Term {
 			return mk(SHeap, "st8", m, a, ite(v, intLit(1), intLit(0)))
 		case u.Info()&types.IsString != 0:
 			m1 := mk(SHeap, "st64", m, a, stPtr(v))
-			return mk(SHeap, "st64", m1, add(a, intLit(8)), stLen(v))
+			return mk(SHeap, "st64", m1, add(a, intLit(8)), mk(SInt, "mod", stLen(v), bigLit(pow2(64))))
 		}
 		sz := fv.TE.Sizeof(t)
+		if isSigned(t) {
+			v = mk(SInt, "mod", v, bigLit(pow2(uint(sz*8))))
+		}
 		return mk(SHeap, fmt.Sprintf("st%d", sz*8), m, a, v)
 	case *types.Pointer, *types.Map, *types.Chan, *types.Signature:
 		return mk(SHeap, "st64", m, a, v)
 	case *types.Slice:
 		m1 := mk(SHeap, "st64", m, a, slPtr(v))
-		m2 := mk(SHeap, "st64", m1, add(a, intLit(8)), slLen(v))
-		return mk(SHeap, "st64", m2, add(a, intLit(16)), slCap(v))
+		m2 := mk(SHeap, "st64", m1, add(a, intLit(8)), mk(SInt, "mod", slLen(v), bigLit(pow2(64))))
+		return mk(SHeap, "st64", m2, add(a, intLit(16)), mk(SInt, "mod", slCap(v), bigLit(pow2(64))))
 	case *types.Struct:
 		si := fv.TE.StructInfo(t)
 		for _, f := range si.Fields {
